@@ -1590,6 +1590,13 @@ impl ASN1Value {
                 ty: ASN1Type::ElsewhereDeclaredType(elsewhere),
                 ..
             })) => {
+                if supertypes.contains(&elsewhere.identifier) {
+                    return Err(grammar_error!(
+                        LinkerError,
+                        "Type {} is defined in terms of itself.",
+                        elsewhere.identifier
+                    ));
+                }
                 supertypes.push(elsewhere.identifier.clone());
                 Self::link_enum_or_distinguished(tlds, elsewhere, identifier, supertypes)
             }
